@@ -110,7 +110,7 @@ FLAVOURS = {
     "nodefault": dict(raw=False, include_default=False),
     "primitive": dict(raw=False, include_default=True, is_primitive=True, ignore_convert_errors=True),
 }
-MUTATORS = ["refglobal", "refstage", "refcomp", "setactive", "setvar", "delvar", "setopt", "delopt", "setglobal", "setstage", "setpglobal", "setpstage", "add",
+MUTATORS = ["fork", "refglobal", "refstage", "refcomp", "setactive", "setvar", "delvar", "setopt", "delopt", "setglobal", "setstage", "setpglobal", "setpstage", "add",
             "update", "delete"]
 
 
@@ -209,7 +209,7 @@ def history(draw, max_ops=24, pool=POOL):
     ops = []
     kinds = (["setvar"] * 3 + ["delvar"] * 2 + ["setopt"] * 3 + ["delopt"] + ["setglobal"] * 2 + ["setstage"] * 2 +
              ["setpglobal"] * 2 + ["setpstage"] * 2 + ["add"] + ["update"] * 2 + ["delete"] + ["query"] * 4 +
-             ["setactive"] + ["refglobal", "refstage", "refcomp"])
+             ["setactive"] + ["refglobal", "refstage", "refcomp"] + ["fork"])
 
     def target():
         if exists and draw(st.integers(0, 9)) < 9:
@@ -284,6 +284,11 @@ def history(draw, max_ops=24, pool=POOL):
         elif k == "setactive":
             # configure_platform(): queries that name no platform now mean another platform
             ops.append([k, draw(st.sampled_from(platforms))])
+        elif k == "fork":
+            # a copy of the description object is taken (get_flowir_concrete(return_copy=True) / copy()), updated and
+            # queried by its owner; the original was not updated at all
+            n = draw(st.sampled_from(VARS))
+            ops.append([k, n, draw(_value(n))])
         elif k == "add":
             absent = [c for c in pool if tuple(c) not in exists]
             cid = draw(st.sampled_from(absent)) if absent and draw(st.integers(0, 9)) < 9 else \
@@ -536,6 +541,18 @@ class History:
                     scope.pop(name, None)
                 else:
                     scope[name] = value
+            elif k == "fork":
+                clone = self.conf.get_flowir_concrete(return_copy=True) if self.conf is not None else L.copy()
+                clone.set_global_variable(op[1], op[2])
+                rebuilt = self.F.FlowIRConcrete(clone.raw(), self.active, None)
+                for c in list(self.ever):
+                    for p in self.platforms:
+                        got, want = self.ask(clone, c, p, "full")[0], self.ask(rebuilt, c, p, "full")[0]
+                        if got != want:
+                            raise Violation("copy-answer-differs-from-rebuilt",
+                                            "%s: a copy that was updated (%s=%r) answers %s for %s on %s, rebuilt from "
+                                            "its raw() %s" % (json.dumps(op), op[1], op[2], _short(got), node_name(c), p,
+                                                              _short(want)))
             elif k == "setactive":
                 if self.conf is not None:
                     return "rejected:not-offered-by-the-configuration-object"
@@ -574,6 +591,8 @@ class History:
                 L.update_component(cid, copy.deepcopy(op[2]))
             elif k == "delete":
                 L.delete_component(cid)
+        except Violation:
+            raise
         except Exception as e:     # a rejected update; the description must still be served coherently afterwards
             return "rejected:" + type(e).__name__
         return "ok"
